@@ -157,6 +157,19 @@ Theorem C15_zscore_fields_axis : forall np_sqrt np_pi np_std1 biweight1 np_cov01
 Proof. exact main_zscore_fields_axis. Qed.
 Print Assumptions C15_zscore_fields_axis.
 
+(** the same over the whole array (axis=None): location and divisor of the flattened data *)
+Theorem C15_zscore_fields_none : forall np_sqrt np_pi np_std1 biweight1 np_cov01 sh A m F lm f,
+  sh <> nil -> shape A = sh -> scale_fn np_sqrt np_pi biweight1 np_cov01 m = Some F -> loc_fn lm = Some f -> all_idx sh <> nil ->
+  exists z l s v, estimate_zscore np_sqrt np_pi np_std1 biweight1 np_cov01 nd_memo A lm m None = Some (z, l, s) /\
+    estimate_scale np_sqrt np_pi np_std1 biweight1 np_cov01 nd_memo (of_vec (ravel A)) m None false = Some (scalar v) /\
+    bc sh (shape l) /\ bc sh (shape s) /\ shape z = sh /\
+    forall I, in_range sh I ->
+      rd l I = f (ravel A) /\ (rd s I = qz 1 \/ rd s I = v) /\ (Q2Qc 0 < rd s I)%Qc /\
+      rd z I = ((rd A I - f (ravel A)) / rd s I)%Qc /\
+      (v = qz 0 -> rd s I = qz 1 /\ rd z I = (rd A I - f (ravel A))%Qc).
+Proof. exact main_zscore_fields_none. Qed.
+Print Assumptions C15_zscore_fields_none.
+
 (** a sample whose scale estimate is zero, under x -> a x + b: unit divisor on both sides, Z-scores x - loc and a (x - loc) *)
 Theorem C15_zscore_zero_scale_affine : forall (np_sqrt : Qc -> Qc) sh (a b : Qc) data data' loc loc' sc sc' axis I,
   a <> Q2Qc 0 -> sh <> nil -> shape data = sh -> bc sh (shape loc) -> bc sh (shape sc) -> in_range sh I ->
@@ -179,15 +192,15 @@ Proof. exact main_zscore_norm_1d_partial. Qed.
 Print Assumptions C15_zscore_norm_1d_partial.
 
 (** estimate_scale(keepdims=False) along an axis: the per-lane estimates in the input's shape without the reduced axis; a single lane
-    comes back as a scalar.  PARTIAL: the value of that scalar is not stated here (C15_keepdims_axis states it for keepdims=True). *)
-Theorem C15_nokeepdims_axis_partial : forall np_sqrt np_pi np_std1 biweight1 np_cov01 sh A m F k0 I0,
+    comes back as a scalar holding that lane's estimate *)
+Theorem C15_nokeepdims_axis : forall np_sqrt np_pi np_std1 biweight1 np_cov01 sh A m F k0 I0,
   sh <> nil -> shape A = sh -> scale_fn np_sqrt np_pi biweight1 np_cov01 m = Some F -> in_range sh I0 ->
   let k := axis_of sh k0 in 1 <= nth k sh 0 ->
   exists B, estimate_scale np_sqrt np_pi np_std1 biweight1 np_cov01 nd_memo A m (Some k0) false = Some B /\
-    (size (F A (Some k0)) = 1 -> shape B = nil) /\
+    (size (F A (Some k0)) = 1 -> shape B = nil /\ get B nil = get (F (of_vec (lane A k I0)) None) nil) /\
     (size (F A (Some k0)) <> 1 -> shape B = remove_nth k sh /\ get B (remove_nth k I0) = get (F (of_vec (lane A k I0)) None) nil).
-Proof. exact main_nokd_axis_partial. Qed.
-Print Assumptions C15_nokeepdims_axis_partial.
+Proof. exact main_nokd_axis. Qed.
+Print Assumptions C15_nokeepdims_axis.
 
 (** * non-vacuity *)
 Definition exA : nd := nd_of_list [2; 3] (qz 1 :: qz 5 :: qz 2 :: qz 4 :: qz 0 :: qz 9 :: nil).
@@ -237,5 +250,31 @@ Example C15_ex_fields_values :
    | Some (z, l, s) => Qceqb (get z [1]) (qz 5) && Qceqb (get l [0]) (qz 0) && Qceqb (get s [0]) (qz 1) | None => false end) = true /\
   (match est exT S_mad (Some 0) true, est (nd_map (affine (qfrac 1 64) (qz 0)) exT) S_mad (Some 0) true with
    | Some B, Some B2 => Qceqb (get B2 [0; 2]) (Qcmult (qfrac 1 64) (get B [0; 2])) && negb (Qceqb (get B [0; 2]) (qz 0)) && Qcltb (get B2 [0; 2]) (qdec 1 8)
+   | _, _ => false end) = true.
+Proof. vm_compute. repeat split; reflexivity. Qed.
+
+(** axis=None and the single-lane case: the hypotheses are met (exA is not empty; a 1 x 8 array reduced along axis 1 has one lane) ... *)
+Definition exC : nd := nd_of_list [1; 8] (map qz [1; 5; 2; 4; 0; 9; 7; 3]).
+Definition exD : nd := nd_of_list [2; 4] (map qz [2; 2; 2; 2; 2; 2; 9; 2]).
+Example C15_ex_none_hyps :
+  all_idx [2; 3] <> nil /\ in_range [2; 3] [1; 2] /\ shape exC = [1; 8] /\ in_range [1; 8] [0; 3] /\ 1 <= nth (axis_of [1; 8] 1) [1; 8] 0 /\
+  size (scale_mad approx_sqrt approx_pi nd_memo exC (Some 1)) = 1.
+Proof. split; [discriminate|]. split; [cbn; lia|]. split; [reflexivity|]. split; [cbn; lia|]. split; [vm_compute; intro H; discriminate|]. vm_compute. reflexivity. Qed.
+(** ... and the statements say what one expects: over the whole of exA (mad + median, axis=None) the location field has shape (1, 1) and
+    reads the median 3 of the six values, the divisor field reads the MAD scale of the flattened data; over the heavily tied exD
+    (iqr, axis=None) the estimate is 0, the divisor 1 and the Z-scores x - median; the single lane of exC comes back as a scalar
+    equal to the estimate of that lane as a 1-D array, which is not 0 *)
+Example C15_ex_none_values :
+  let est := estimate_scale approx_sqrt approx_pi std1 (fun _ => qz 0) cov01 nd_memo in
+  let zsc := estimate_zscore approx_sqrt approx_pi std1 (fun _ => qz 0) cov01 nd_memo in
+  (match zsc exA L_median S_mad None, est (of_vec (ravel exA)) S_mad None false with
+   | Some (z, l, s), Some v => shape_eqb (shape l) [1; 1] && shape_eqb (shape s) [1; 1] && Qceqb (get l [0; 0]) (qz 3) &&
+                               Qceqb (get s [0; 0]) (item v) && negb (Qceqb (item v) (qz 0)) && shape_eqb (shape z) [2; 3]
+   | _, _ => false end) = true /\
+  (match zsc exD L_median S_iqr None, est (of_vec (ravel exD)) S_iqr None false with
+   | Some (z, l, s), Some v => Qceqb (item v) (qz 0) && Qceqb (get s [0; 0]) (qz 1) && Qceqb (get z [1; 2]) (qz 7) && Qceqb (get z [0; 0]) (qz 0)
+   | _, _ => false end) = true /\
+  (match est exC S_mad (Some 1) false, est (of_vec (map qz [1; 5; 2; 4; 0; 9; 7; 3])) S_mad None false with
+   | Some B, Some v => shape_eqb (shape B) [] && Qceqb (get B []) (item v) && negb (Qceqb (item v) (qz 0))
    | _, _ => false end) = true.
 Proof. vm_compute. repeat split; reflexivity. Qed.
